@@ -2126,6 +2126,12 @@ static void do_group(struct ctx *proto, const struct name_ent *ne, long only_cel
         if (about_name)
             /* not an attribute: whatever is called, the name is the input that matters */
             snprintf(sig, sizeof sig, "C10/crash/%s/name=%s/tp=%s", kind, cx.signame, g_tpname);
+        else if (SH->phase == 'S' || SH->phase == 'F')
+            /* set at run time or through the attribute map of a creating call: the attribute's setter */
+            snprintf(sig, sizeof sig, "C10/crash/%s/set/%sname=%s/tp=%s", kind, detail, cx.signame, g_tpname);
+        else if (SH->phase == 'A' || SH->phase == 'B' || SH->phase == 'R' || SH->phase == 'L')
+            /* a read of an attribute: the attribute's getter (or what the generic layer does with its result) */
+            snprintf(sig, sizeof sig, "C10/crash/%s/get/name=%s/tp=%s", kind, cx.signame, g_tpname);
         else if (cell < 0)
             snprintf(sig, sizeof sig, "C10/crash/%s/group-setup/name=%s/tp=%s", kind, cx.signame, g_tpname);
         else
@@ -2225,6 +2231,13 @@ int main(int argc, char **argv)
     as_env_start();
     struct as_world w;
     as_world_init(&w, tp, ip6, cred, pki, g_rundir);
+    {
+        char d1[32], d2[32];
+        snprintf(d1, sizeof d1, "%s", w.srv_set);
+        snprintf(d2, sizeof d2, "%s", w.cli_set);
+        param_get(cell, "srvset", w.srv_set, sizeof w.srv_set, d1);
+        param_get(cell, "cliset", w.cli_set, sizeof w.cli_set, d2);
+    }
     snprintf(g_tpname, sizeof g_tpname, "%s", as_tp_name(&w));
     g_fam_tcp = as_tcp_based(&w);
     g_fam_tls = as_tls_based(&w);
